@@ -28,6 +28,32 @@ def validate(v, trace_path, tag):
     return r
 
 
+def apalache_inductive(v):
+    """unbounded safety of the design: the inductive invariant of spec/apalache/PidAllocInd.tla (any MaxId in 2..2^20, three threads,
+    any number of allocations) is discharged by Apalache in three steps"""
+    import subprocess, shutil
+    d = os.path.join(lib.SPEC, "apalache")
+    out = lib.outdir(PID, "apalache")
+    steps = [("Init => IndInv", ["--init=Init", "--inv=IndInv", "--length=0"]),
+             ("IndInv /\\ Next => IndInv'", ["--init=IndInit", "--inv=IndInv", "--length=1"]),
+             ("IndInv => NoReturnOfIssued", ["--init=IndInit", "--inv=NoReturnOfIssued", "--length=0"])]
+    res = []
+    for name, args in steps:
+        try:
+            p = subprocess.run(["apalache-mc", "check", "--cinit=ConstInit", f"--out-dir={out}"] + args + ["PidAllocInd.tla"], cwd=d, stdout=subprocess.PIPE, stderr=subprocess.STDOUT, timeout=1500)
+        except (subprocess.TimeoutExpired, FileNotFoundError) as e:
+            raise lib.ToolError(f"apalache-mc did not run: {e}")
+        text = p.stdout.decode("utf-8", "replace")
+        with open(os.path.join(out, "log_" + args[1].split("=")[1] + "_" + args[2].split("=")[1] + ".txt"), "w") as f:
+            f.write(text)
+        if "The outcome is: NoError" not in text:
+            raise lib.ToolError(f"Apalache did not discharge '{name}' (see out/{PID}/apalache)")
+        res.append(name)
+    shutil.rmtree(os.path.join(d, "_apalache-out"), ignore_errors=True)
+    v.cov["mc_configs"].append({"cfg": "apalache/PidAllocInd.tla", "result": "inductive invariant discharged by Apalache (" + "; ".join(res) + "): no identifier is returned twice, for any MaxId in 2..2^20, "
+                                "3 threads and any number of allocations (serial as an unbounded counter)"})
+
+
 def run(tier, seed):
     v = lib.Verdict(PID, tier, seed, "model_checking")
     thorough = tier == "thorough"
@@ -42,6 +68,8 @@ def run(tier, seed):
         trans += r.generated
         v.cov["mc_configs"].append({"cfg": f"PidAlloc_{c}", "distinct": r.distinct, "generated": r.generated, "result": "UniqueWhileBounded, CreationInForce, RefUnique, SerialAdvancesOnWrap hold under every interleaving"})
     lib.tlc_expect_violation("PidAlloc.tla", "mc/PidAlloc_nolock.cfg", PID, "mc_nolock", "UniqueWhileBounded")
+    if thorough:
+        apalache_inductive(v)
     adv = adversarial_schedules(v)
     v.cov["states"], v.cov["transitions"] = states, trans
     # ---- scenarios for the real allocator
